@@ -14,11 +14,11 @@ import (
 // state with N<=Nmax (every alive subset) and every pair / sub-list / order of target sets.
 
 type helperCase struct {
-	Fn    string `json:"fn"`    // addproof | subset | missing | mapmissing
+	Fn    string `json:"fn"` // addproof | subset | missing | mapmissing
 	N     int    `json:"n"`
 	Alive string `json:"alive"`
-	A     []int  `json:"a"`          // first leaf list (slots, in the order given)
-	B     []int  `json:"b,omitempty"` // second leaf list / wants
+	A     []int  `json:"a"`               // first leaf list (slots, in the order given)
+	B     []int  `json:"b,omitempty"`     // second leaf list / wants
 	Extra uint64 `json:"extra,omitempty"` // subset: an uncovered want position (when HasExtra)
 	HasX  bool   `json:"hasExtra,omitempty"`
 	Mode  string `json:"mode,omitempty"` // mapmissing: remember mode of the partial forest
